@@ -1781,9 +1781,11 @@ fn generate_type_impl(
                             qualifiers.prepend(Located::none(*modifier));
                         }
                     }
+                    // The modifiers left for a reference describe the referenced value
                     ast::Declarator::Empty
                     | ast::Declarator::Identifier(..)
-                    | ast::Declarator::Array(..) => {
+                    | ast::Declarator::Array(..)
+                    | ast::Declarator::Reference(..) => {
                         for modifier in modifiers.iter().rev() {
                             base.modifiers.prepend(Located::none(*modifier));
                         }
